@@ -32,6 +32,7 @@ type evalModel struct {
 	regionNames                  []string
 	defaultRegion                map[*ssa.BasicBlock]bool
 	stepBlocks                   map[*ssa.BasicBlock]bool // blocks that exist only for stepping (per function)
+	stepHelpers                  []*ssa.Function          // package functions only ever called from stepping code
 	flags                        map[*ssa.Global]bool
 }
 
@@ -270,6 +271,52 @@ func (m *evalModel) computeStepBlocks() {
 			}
 		}
 	}
+	// package-level helpers all of whose call sites are stepping code are stepping code entirely (fixpoint)
+	defer func() {
+		for changed := true; changed; {
+			changed = false
+			for _, h := range m.w.Funcs {
+				if h.Pkg != m.EVAL.Pkg || h.Parent() != nil || len(h.Blocks) == 0 || m.stepBlocks[h.Blocks[0]] {
+					continue
+				}
+				switch h {
+				case m.EVAL, m.evalAst, m.doFn, m.macroexpand, m.quasiquote, m.qqLoop, m.isMacroCall:
+					continue
+				}
+				sites, all := 0, true
+				for _, f := range m.w.Funcs {
+					if isTestFunc(m.w, f) {
+						continue
+					}
+					for _, b := range f.Blocks {
+						for _, in := range b.Instrs {
+							if ci, ok := in.(ssa.CallInstruction); ok && ci.Common().StaticCallee() == h {
+								sites++
+								if !m.stepBlocks[b] {
+									all = false
+								}
+							}
+							// address taken: not a pure helper
+							for _, op := range in.Operands(nil) {
+								if *op == ssa.Value(h) {
+									if ci, ok := in.(ssa.CallInstruction); !ok || ci.Common().Value != ssa.Value(h) {
+										all = false
+									}
+								}
+							}
+						}
+					}
+				}
+				if sites > 0 && all {
+					for _, b := range h.Blocks {
+						m.stepBlocks[b] = true
+					}
+					m.stepHelpers = append(m.stepHelpers, h)
+					changed = true
+				}
+			}
+		}
+	}()
 	// closures created (or called) in stepping blocks are stepping code entirely
 	for _, f := range fns {
 		for _, an := range allAnon(f) {
